@@ -66,6 +66,8 @@ type msg struct {
 // Server is one running LuaHelper instance plus the client's view of it.
 type Server struct {
 	Root   string
+	// AfterHandler (direct mode) runs between a handler's return and the encoding of its result.
+	AfterHandler func()
 	srv    *jrpc2.Server
 	cli    channel.Channel
 	nextID int
@@ -150,12 +152,26 @@ func WriteFiles(root string, files map[string]string) {
 		names = append(names, n)
 	}
 	sort.Strings(names)
+	var links []string
 	for _, n := range names {
+		if strings.HasPrefix(files[n], SymlinkPrefix) {
+			links = append(links, n)
+			continue
+		}
 		p := filepath.Join(root, n)
 		os.MkdirAll(filepath.Dir(p), 0o755)
 		os.WriteFile(p, []byte(files[n]), 0o644)
 	}
+	for _, n := range links {
+		// "name": "@symlink:<target relative to the root>" creates a symbolic link with an absolute target
+		p := filepath.Join(root, n)
+		os.MkdirAll(filepath.Dir(p), 0o755)
+		os.Symlink(filepath.Join(root, strings.TrimPrefix(files[n], SymlinkPrefix)), p)
+	}
 }
+
+// SymlinkPrefix marks a workspace entry that is a symbolic link (see WriteFiles).
+const SymlinkPrefix = "@symlink:"
 
 func RemoveWorkspace(root string) {
 	if strings.HasPrefix(root, ScratchBase()) {
@@ -418,6 +434,27 @@ func (s *Server) ChangeInc(rel string, edits []Edit) error {
 	for _, e := range edits {
 		r := e.Range
 		cc = append(cc, map[string]interface{}{"range": &r, "text": e.Text})
+	}
+	return s.Notify("textDocument/didChange", map[string]interface{}{
+		"textDocument": map[string]interface{}{"uri": s.URI(rel), "version": 2}, "contentChanges": cc})
+}
+
+// Change is one entry of a didChange batch: a range edit, or (Range == nil) a full-text replacement.
+type Change struct {
+	Range *Range
+	Text  string
+}
+
+// ChangeBatch sends one didChange whose entries may mix full replacements and range edits.
+func (s *Server) ChangeBatch(rel string, changes []Change) error {
+	var cc []interface{}
+	for _, c := range changes {
+		if c.Range == nil {
+			cc = append(cc, map[string]interface{}{"text": c.Text})
+		} else {
+			r := *c.Range
+			cc = append(cc, map[string]interface{}{"range": &r, "text": c.Text})
+		}
 	}
 	return s.Notify("textDocument/didChange", map[string]interface{}{
 		"textDocument": map[string]interface{}{"uri": s.URI(rel), "version": 2}, "contentChanges": cc})
